@@ -141,8 +141,78 @@ theorem lockset_stage_state :
     Lockset.raceFreeClosures Gen.Access.stageState = true ∧
     Lockset.raceFreeClosures Gen.Access.stageStateFuncfile = true ∧
     Lockset.raceFree Gen.Access.stdlibGlobalsCtors Gen.Access.stdlibGlobals = true ∧
-    Gen.Access.stdlibGlobalsCtors = ["init"] := by
-  refine ⟨by decide +kernel, by decide +kernel, by decide +kernel, rfl⟩
+    Gen.Access.stdlibGlobalsCtors = ["init"] ∧
+    Lockset.raceFreeClosures Gen.Access.stageStateExpressions = true ∧
+    Lockset.raceFreeClosures Gen.Access.stageStateStdmath = true ∧
+    Lockset.raceFree Gen.Access.compiledKeyBuilderCtors Gen.Access.compiledKeyBuilder = true ∧
+    Gen.Access.compiledKeyBuilderCtors = ["KeyBuilder.Compile", "optimize"] ∧
+    Lockset.raceFree Gen.Access.expressionsGlobalsCtors Gen.Access.expressionsGlobals = true ∧
+    Lockset.raceFree Gen.Access.stdmathGlobalsCtors Gen.Access.stdmathGlobals = true ∧
+    Gen.Access.expressionsGlobalsCtors = ["init"] ∧ Gen.Access.stdmathGlobalsCtors = ["init"] := by
+  refine ⟨by decide +kernel, by decide +kernel, by decide +kernel, rfl, by decide +kernel, by decide +kernel,
+    by decide +kernel, rfl, by decide +kernel, by decide +kernel, rfl, rfl⟩
+
+/-- EVERY closure-captured variable of the expression stages (pkg/expressions/stdlib, funcfile, pkg/expressions,
+    stdmath; captured at build time, used at evaluation time, variables of builder literals nested in a factory
+    included) follows one of three disciplines at evaluation time: it is only read (`immutable`), or it is a context
+    pool whose only writes are `ObjectPool.Get/Return` (`pooled`: exactly the `{! …}` pool and the user-function
+    pool; `subContextPool` of @map/@reduce/@for/@filter is package state, below), or every write goes through
+    sync/atomic (`atomic`: exactly the two date-format memories of {time}).  No captured variable is `mutable`
+    (plainly written at evaluation time).  The captured variables that are declared inside a stage, hence made
+    afresh by every evaluation (per-call locals holding a pooled object), are exactly `kfArrayMap.mapperContext`;
+    and these packages start no goroutine, so a per-call closure never reaches a second goroutine.
+    (seeded/C05-map-shared-subcontext turns `mapperContext` from per-call into a captured per-build variable whose
+    pointee is written by `Eval` at evaluation time; seeded/C10-joinstages-shared-buf adds the captured `scratch`.) -/
+theorem lockset_stage_classes :
+    Lockset.ofClass Gen.Access.stageStateFields Gen.Access.stageState "mutable" = [] ∧
+    Lockset.ofClass Gen.Access.stageStateFuncfileFields Gen.Access.stageStateFuncfile "mutable" = [] ∧
+    Lockset.ofClass Gen.Access.stageStateExpressionsFields Gen.Access.stageStateExpressions "mutable" = [] ∧
+    Lockset.ofClass Gen.Access.stageStateStdmathFields Gen.Access.stageStateStdmath "mutable" = [] ∧
+    Lockset.ofClass Gen.Access.stageStateFields Gen.Access.stageState "pooled" = ["kfMath.ctxPool"] ∧
+    Lockset.ofClass Gen.Access.stageStateFuncfileFields Gen.Access.stageStateFuncfile "pooled" = ["keyBuilderToFunction.ctxPool"] ∧
+    Lockset.ofClass Gen.Access.stageStateFields Gen.Access.stageState "atomic" =
+      ["smartDateParseWrapper.atomicFormat", "smartDateParseWrapper.staticFormat"] ∧
+    Lockset.ofClass Gen.Access.stageStateFuncfileFields Gen.Access.stageStateFuncfile "atomic" = [] ∧
+    (Lockset.stageClasses Gen.Access.stageStateExpressionsFields Gen.Access.stageStateExpressions).all (fun p => p.2 == "immutable") = true ∧
+    Gen.Access.stageStatePerCall = ["kfArrayMap.mapperContext"] ∧ Gen.Access.stageStateFuncfilePerCall = [] ∧
+    Gen.Access.stageStateExpressionsPerCall = [] ∧ Gen.Access.stageStateStdmathPerCall = [] ∧
+    Gen.Access.spawns.lookup "pkg/expressions/stdlib" = some [] ∧ Gen.Access.spawns.lookup "pkg/expressions/funcfile" = some [] ∧
+    Gen.Access.spawns.lookup "pkg/expressions" = some [] ∧ Gen.Access.spawns.lookup "pkg/expressions/stdmath" = some [] := by
+  refine ⟨by decide +kernel, by decide +kernel, by decide +kernel, by decide +kernel, by decide +kernel, by decide +kernel,
+    by decide +kernel, by decide +kernel, by decide +kernel, rfl, rfl, rfl, rfl, by decide +kernel, by decide +kernel,
+    by decide +kernel, by decide +kernel⟩
+
+/-- What a class means for the race check (for all tables, not only the generated ones): a closure table none of
+    whose captured variables is `mutable` … has no plain write at evaluation time at all. -/
+theorem stage_class_not_mutable_iff (accs : List Gen.Access.Acc) (f : String) :
+    Lockset.stageClass accs f ≠ "mutable" ↔
+      ∀ a ∈ accs, a.depth ≠ 0 → a.field = f → a.write = true → a.atomic = true :=
+  Lockset.stageClass_not_mutable_iff accs f
+
+/-- The package state the stages share (`subContextPool`, the function / format tables of stdlib, the operator
+    tables of stdmath, the error values of pkg/expressions): outside `init` the only writes are the
+    `ObjectPool.Get/Return` calls on `subContextPool`; and the compiled expression itself (`CompiledKeyBuilder.stages`)
+    is written by nothing but `Compile` and `optimize`, which build it. -/
+theorem lockset_stage_globals :
+    ((Lockset.shared Gen.Access.stdlibGlobalsCtors Gen.Access.stdlibGlobals).all fun a =>
+      !a.write || (a.field == "subContextPool" && a.atomic && a.how.startsWith "call:slicepool.ObjectPool.")) = true ∧
+    ((Lockset.shared Gen.Access.stdmathGlobalsCtors Gen.Access.stdmathGlobals).all fun a => !a.write || a.atomic) = true ∧
+    ((Lockset.shared Gen.Access.expressionsGlobalsCtors Gen.Access.expressionsGlobals).all fun a => !a.write) = true ∧
+    ((Lockset.shared Gen.Access.compiledKeyBuilderCtors Gen.Access.compiledKeyBuilder).all fun a => !a.write) = true := by
+  refine ⟨by decide +kernel, by decide +kernel, by decide +kernel, by decide +kernel⟩
+
+/-- Non-vacuity / boundary: with the access records the two seeded changes produce (the table rows the extractor
+    emits on those trees) the class of the variable becomes `mutable` and the race check fails, naming it. -/
+example :
+    Lockset.stageClass (⟨"kfArrayMap$2", "kfArrayMap.mapperContext", "kfArrayMap.mapperContext", "ref", true, false, "", "", "", 1, "direct", [], 149⟩
+      :: Gen.Access.stageState) "kfArrayMap.mapperContext" = "mutable" ∧
+    Lockset.raceFreeClosures (⟨"kfArrayMap$2", "kfArrayMap.mapperContext", "kfArrayMap.mapperContext", "ref", true, false, "", "", "", 1, "direct", [], 149⟩
+      :: Gen.Access.stageState) = false ∧
+    Lockset.stageClass (⟨"CompiledKeyBuilder.joinStages$1", "CompiledKeyBuilder.joinStages.scratch", "CompiledKeyBuilder.joinStages.scratch", "var", true, false, "", "", "", 1, "direct", [], 204⟩
+      :: Gen.Access.stageStateExpressions) "CompiledKeyBuilder.joinStages.scratch" = "mutable" ∧
+    Lockset.raceFreeClosures (⟨"CompiledKeyBuilder.joinStages$1", "CompiledKeyBuilder.joinStages.scratch", "CompiledKeyBuilder.joinStages.scratch", "var", true, false, "", "", "", 1, "direct", [], 204⟩
+      :: Gen.Access.stageStateExpressions) = false := by
+  refine ⟨by decide +kernel, by decide +kernel, by decide +kernel, by decide +kernel⟩
 
 /-- Non-vacuity: the stage tables do contain shared writes that need (and have) protection – the context
     pools' Get/Return and nothing unprotected –, and a stage that wrote a captured variable plainly
